@@ -41,6 +41,9 @@ class YowNoiseLayer(YowLayer):
         self._stream = BlockingQueueSegmentedStream()  # type: BlockingQueueSegmentedStream
         self._read_buffer = bytearray()
         self._flush_lock = threading.Lock()
+        # serialises "is this still the current connection's stream?" + the write below with the replacement of the stream
+        # when the connection is lost
+        self._stream_lock = threading.Lock()
         self._incoming_segments_queue = Queue.Queue()
         self._profile = None
         self._rs = None
@@ -60,11 +63,12 @@ class YowNoiseLayer(YowLayer):
 
     @EventCallback(YowNetworkLayer.EVENT_STATE_DISCONNECTED)
     def on_disconnected(self, event):
-        self._wa_noiseprotocol = self._new_noiseprotocol()
-        # a handshake worker that was cut off before the server answered is still waiting on the segment queue;
-        # retire the queue and the stream with it, otherwise it would consume the next attempt's server hello
-        self._incoming_segments_queue = Queue.Queue()
-        self._stream = BlockingQueueSegmentedStream()
+        with self._stream_lock:
+            self._wa_noiseprotocol = self._new_noiseprotocol()
+            # a handshake worker that was cut off before the server answered is still waiting on the segment queue;
+            # retire the queue and the stream with it, otherwise it would consume the next attempt's server hello
+            self._incoming_segments_queue = Queue.Queue()
+            self._stream = BlockingQueueSegmentedStream()
 
     @EventCallback(YowAuthenticationProtocolLayer.EVENT_AUTH)
     def on_auth(self, event):
@@ -175,9 +179,12 @@ class YowNoiseLayer(YowLayer):
             queue = self._incoming_segments_queue
         if event == BlockingQueueSegmentedStream.EVENT_WRITE:
             segment = stream.get_write_segment()
-            if stream is self._stream:
-                self.toLower(segment)
-            # else: written by the worker of an abandoned attempt, not for the current connection
+            # the check and the write are one step: a sender that is held up between them must not put a frame of the
+            # lost session on the connection that replaced it
+            with self._stream_lock:
+                if stream is self._stream:
+                    self.toLower(segment)
+                # else: written by a sender or worker of an abandoned attempt, not for the current connection
         elif event == BlockingQueueSegmentedStream.EVENT_READ:
             stream.put_read_segment(queue.get(block=True))
 
